@@ -139,10 +139,13 @@ func (m *Map[K, V]) Replace(old, new K, v V) {
 			m.items[newidx].deleted = true
 		}
 
-		// Delete "old" from the index and update "new" to point to idx
+		// Delete "old" from the index
 		delete(m.index, old)
-		m.index[new] = idx
 	}
+
+	// Point "new" at idx. (Needed even when old == new, in case the key was
+	// not in the map and has just been appended.)
+	m.index[new] = idx
 
 	// Put the item into m.items at idx.
 	m.items[idx] = Tuple[K, V]{
